@@ -177,10 +177,27 @@ def worker(args):
     rs = model.RuleSet(acase)
     useful_first = {}
     useful_any = {}
+    empty_first = {}        # rule -> (sc, bol): first accepting rule of a start state (empty match)
     too_big = False
+    rs_real = model.RuleSet(case) if case["opts"].get("nodefault") else None
     for sc in range(len(case["scs"])):
         for bol in (True, False):
             aut = rs.aut(sc, bol)
+            a0 = aut.accl[aut.start]
+            if a0:
+                empty_first.setdefault(a0[0], (sc, bol))
+                if rs_real is not None:
+                    # without a default rule the empty match is really selected when the scan
+                    # dies before reaching any accepting state
+                    ra = rs_real.aut(sc, bol)
+                    r0 = ra.accl[ra.start]
+                    if r0 and r0[0] == a0[0]:
+                        for c in byte_classes(ra):
+                            t = ra.step(ra.start, c)
+                            if t < 0 or not ra.accl[t]:
+                                useful_first.setdefault(a0[0], (sc, bol, b""))
+                                useful_any.setdefault(a0[0], (sc, bol, b""))
+                                break
             f, a = explore(aut)
             if f is None:
                 too_big = True
@@ -213,8 +230,15 @@ def worker(args):
                                         ri + 1, texts[ri], useful_first[ri][2], useful_first[ri][0],
                                         useful_first[ri][1]), b, None))
         elif not w and not uf and not relaxed:
-            out["problems"].append(("missing-warning", "rule %d (%s) can never be selected but "
-                                    "flex is silent" % (ri + 1, texts[ri]), b, None))
+            if ri in empty_first:
+                # known finding K02: the rule wins only the empty match at a start state
+                out["problems"].append(("missing-warning-empty", "rule %d (%s) only ever wins with "
+                                        "the empty match at the start state of condition %d, which "
+                                        "a longer match always beats; flex is silent" % (
+                                            ri + 1, texts[ri], empty_first[ri][0]), b, None))
+            else:
+                out["problems"].append(("missing-warning", "rule %d (%s) can never be selected but "
+                                        "flex is silent" % (ri + 1, texts[ri]), b, None))
         if not uf:
             feat("model_unmatchable")
     if case["opts"].get("nodefault"):
@@ -235,7 +259,7 @@ def worker(args):
     # execution witnesses: rules not warned about, reachable from the start of a buffer
     nwit = 0
     for ri, (sc, bol, w) in sorted(useful_first.items()):
-        if ri >= nrules or ri in warned or not bol or nwit >= 4:
+        if ri >= nrules or ri in warned or not bol or nwit >= 4 or not w:
             continue
         if "dangerous trailing context" in warn and case["rules"][ri].get("trail") is not None:
             continue
